@@ -17,7 +17,7 @@ RUNS = {"quick": 30000, "thorough": 400000}
 CHUNK = {"quick": 50, "thorough": 200}
 PROBES = ["unaligned_read_then_observe", "read_at_eof", "read_past_eof", "read0", "read_all", "seek_set", "seek_cur",
           "seek_end", "len_mod4_nonzero", "len_lt_16", "detect_marker_and_size", "detect_size_only",
-          "detect_marker_only", "detect_decoy_marker", "negative_rejected", "nonce_zero_byte", "head_unaligned", "first_op_without_seek", "read_without_argument",
+          "detect_marker_only", "detect_decoy_marker", "detect_stub_ends_in_ff_run", "detect_from_path", "detect_pe_header_beyond_first_kib", "negative_rejected", "nonce_zero_byte", "head_unaligned", "first_op_without_seek", "read_without_argument",
           "constructed_with_default_offset", "stub_at_search_range_limit", "second_view_on_same_file", "second_decoder_on_another_payload"]
 RULE = ("seeded plans: (a) direct construction over arbitrary plaintext (len 0..4100, every residue mod 4, many <16), "
         "nonce incl. zero bytes, stub 0-900 bytes, 1-12 histories of 1-24 seek/read/tell ops; (b) detection via "
@@ -112,7 +112,9 @@ def generate(rng, tier, index):
                 "histories": [_gen_history(rng, plen) for _ in range(rng.randint(1, 12))]}
     if r < 0.85:
         variant = rng.choice(["both", "both", "size", "marker"])
-        pe = {"arch": rng.choice(["x86", "x64"]), "e_lfanew": rng.choice([64, 128, 200, 248, rng.randint(64, 600)]),
+        # (e_lfanew anywhere in the accepted range 0 < e_lfanew < 1024, so the PE header may lie beyond the first KiB)
+        pe = {"arch": rng.choice(["x86", "x64"]), "e_lfanew": rng.choice([64, 128, 200, 248, rng.randint(64, 600), rng.randint(64, 1023),
+                                                                       rng.choice([1000, 1004, 1020, 1023])]),
               "prepend": rng.choice([0, 0, 1, 2, 3, 7, rng.randint(0, 300)]), "extra": rng.randint(0, 7),
               "seed": rng.getrandbits(20), "text": rng.choice([16, 512])}
         decoys = rng.choice([0, 0, 1, 2])
@@ -126,8 +128,14 @@ def generate(rng, tier, index):
             # "both": the nonce offset n+3 itself has to be within the size relation's range, otherwise it is marker-only
             n = rng.choice([0, 1, 12, 100, 600, 990, 1017, 1018, 1019, 1020, rng.randint(0, 1020)])
         stub = _stub(rng, n, variant in ("both", "marker"), decoys)
+        if variant == "both" and n > 8 and rng.random() < 0.15:
+            # the stub's own last bytes are ff as well (e.g. a call with a negative displacement, e8 ff ff ff ff): the marker
+            # needle matches at overlapping positions and only the last one is followed by a consistent size field
+            k = rng.choice([1, 1, 2, 3, 4])
+            stub = stub[:n - k] + b"\xff" * k + stub[n:]
         plen_guess = 2200
         return {"mode": "detect", "variant": variant, "pe": pe, "nonce": hx(nonce), "stub": hx(stub), "B": B,
+                "entry": rng.choice(["from_file", "from_file", "from_file", "from_path"]),
                 "size_delta": rng.choice([1, -1, 4, 1000, -8, 0x01000000, 0x5A000000, rng.getrandbits(32) | 1]),
                 "histories": [_gen_history(rng, plen_guess, maxops=10) for _ in range(rng.randint(0, 3))]}
     kind = rng.choice(["random", "plain_pe", "raw_block", "text", "empty", "short"])
@@ -306,6 +314,9 @@ def _pe_plain(pe):
 
 
 def execute(plan: dict) -> Result:
+    import os
+    import tempfile
+
     from dissect.cobaltstrike.xordecode import XorEncodedFile
     res = Result()
     budget = Budget(3_000_000)
@@ -360,12 +371,25 @@ def execute(plan: dict) -> Result:
                        [plan["variant"]]] += 1
             if stub[:-3].find(b"\xff\xff\xff") >= 0:
                 res.probes["detect_decoy_marker"] += 1
+            if plan["variant"] == "both" and stub[-4:-3] == b"\xff":
+                res.probes["detect_stub_ends_in_ff_run"] += 1
             if no >= 1019:
                 res.probes["stub_at_search_range_limit"] += 1
+            if plan["pe"]["prepend"] + plan["pe"]["e_lfanew"] + 24 > 1024:
+                res.probes["detect_pe_header_beyond_first_kib"] += 1
             fh = seam.file(raw)
             fh.seek(len(raw) // 3)
+            path = None
             try:
-                xf = XorEncodedFile.from_file(fh)
+                if plan.get("entry") == "from_path":
+                    # the documented convenience entry: the same view, over a file the library opens itself
+                    fd, path = tempfile.mkstemp(prefix="dst-c09-")
+                    with os.fdopen(fd, "wb") as f_:
+                        f_.write(raw)
+                    res.probes["detect_from_path"] += 1
+                    xf = XorEncodedFile.from_path(path)
+                else:
+                    xf = XorEncodedFile.from_file(fh)
             except ReadBudgetExceeded:
                 res.violate(("C09", "detect", "no_termination"), "from_file did not terminate")
                 return res
@@ -377,6 +401,9 @@ def execute(plan: dict) -> Result:
             except Exception as e:
                 res.violate(("C09", "detect", "exception", type(e).__name__), f"from_file raised {e!r}")
                 return res
+            finally:
+                if path is not None:
+                    os.unlink(path)      # (the open file object keeps the content readable)
             res.log.log("detect", xf.nonce_offset, no)
             if xf.nonce_offset != no:
                 decoy = "decoy_marker_at_reported_offset" if raw[max(0, xf.nonce_offset - 3):xf.nonce_offset] == b"\xff\xff\xff" \
@@ -395,7 +422,8 @@ def execute(plan: dict) -> Result:
             for hi, ops in enumerate(plan["histories"]):
                 ops = [op for op in ops]
                 if _valid(ops, len(plain)):
-                    run_history(res, xf, plain, ops, hi, other=lambda fh=fh, no=no: XorEncodedFile(fh, nonce_offset=no))
+                    ofh = xf.fh if plan.get("entry") == "from_path" else fh     # a second view over the SAME underlying file
+                    run_history(res, xf, plain, ops, hi, other=lambda fh=ofh, no=no: XorEncodedFile(fh, nonce_offset=no))
         elif mode == "negative":
             kind, size, seed = plan["kind"], plan["size"], plan["seed"]
             if kind == "random":
